@@ -19,6 +19,7 @@ CLAIMS = {
  "C07": ("design model check of status legality on every exit path + trace validation of code/message/success against what the trace shows", "5/C07"),
  "C08": ("design liveness/exception mapping + trace validation over enumerated fault plans (NaN/inf/huge at index k or region, degenerate data, all-fixed/inconsistent bounds, callbacks): returns, barrier, success=>finite", "5/C08"),
  "C09": ("design model check of stop immediacy + trace validation with triggers placed at every site", "5/C09"),
+ "C10": ("Presolve.tla: the presolved (fixed variables eliminated, scaled) linear system computed exactly by TLC on integer data, residual identity checked by TLC, compared exactly with the Problem object minimize builds; pairs of restated runs (Bounds/array, dict/NonlinearConstraint, NaN/inf limits, split/merged/regrouped constraints, hand-eliminated fixed variables, scale=True vs explicit rescaling) validated by Pair.tla", "5/C10"),
  "C11": ("Reentrancy.tla: non-interference over all interleavings of 2-3 runs (shared-cache / shared-constants deviations rejected); schedules of real calls (alone, repeated with short-lived callbacks, nested, 2..16 threads on shared bounds / constraint objects) validated pairwise against their script by Pair.tla: bit-identical evaluation sequences and results, arguments unchanged", "5/C11"),
  "C12": ("InterpBook.tla (slot / recorded-value bookkeeping under Replace / ReplaceNear / Shift / Reset) model-checked by simulation and every behaviour replayed into a real Models object (n = 1..5, all admissible point numbers, 0..3 constraint models): slot tables equal, every model reproduces every recorded value; trace validation of the interpolation events of real runs", "5/C12"),
  "C13": ("exact oracle: TLC computes (Interp.tla, integer / rational arithmetic) the least-Frobenius-norm models of every poised lattice set and the symmetric-Broyden recursion over random update histories (incl. zero-residual replacements); every view of the real Quadratic / Models (value, gradient, Hessian, Hessian product, curvature, before and after a base shift, at two length scales) is compared within c*eps*cond; self-consistency clauses on real runs", "5/C13"),
